@@ -11,6 +11,7 @@ import (
 	"pgregory.net/rapid"
 
 	"verif/harness/chain"
+	"verif/harness/refcodec"
 	"verif/harness/sim"
 )
 
@@ -58,6 +59,9 @@ func (c *c14) Step(w *sim.World, s *sim.Step) *Viol {
 			nEff++
 		}
 	}
+	if !s.OK() && s.Op.Meta["after-faults"] != "" && s.Op.Meta["after-faults"] != "0" && s.Exp != nil && s.Exp.V == sim.MustSucceed {
+		return viol("C14", s.Idx, "the transfer, retried without faults after "+s.Op.Meta["after-faults"]+" rolled-back attempts, fails although every condition holds (something survived the rollbacks)", "success", "failure: "+s.Res.Log)
+	}
 	if s.OK() {
 		// a transfer never succeeds unless every dependency request it made succeeded
 		if failedCall != "" {
@@ -88,6 +92,21 @@ func (c *c14) Step(w *sim.World, s *sim.Step) *Viol {
 	// failure: everything is as before
 	if v := unchanged("C14", s); v != nil {
 		return v
+	}
+	for _, m := range s.Msgs {
+		if rm, ok := m.(*types.MsgReceiveMessage); ok {
+			if dm, err := refcodec.DecodeMessage(rm.Message); err == nil {
+				was := s.Pre.Used[sim.UsedSpec{Domain: dm.Source, Nonce: dm.Nonce}]
+				var resp types.QueryGetUsedNonceResponse
+				code, _ := w.Chain.Query("UsedNonce", &types.QueryGetUsedNonceRequest{SourceDomain: dm.Source, Nonce: dm.Nonce}, &resp)
+				if (code == 0) != was {
+					return viol("C14", s.Idx, fmt.Sprintf("used-nonce query for (%d,%d) after a rolled-back receive", dm.Source, dm.Nonce), fmt.Sprintf("used=%v (as before)", was), fmt.Sprintf("used=%v", code == 0))
+				}
+			}
+		}
+	}
+	if got, err := queryNext(w); err == nil && got != s.Pre.Next {
+		return viol("C14", s.Idx, "next-available-nonce query after a rolled-back transfer", s.Pre.Next, got)
 	}
 	for _, ev := range s.RawEv {
 		if strings.HasPrefix(ev.Type, "circle.cctp") {
@@ -268,7 +287,7 @@ func driveC14(g *sim.G, exec func(*sim.Op) *Viol) *Viol {
 				return v
 			}
 		}
-		if v := exec(cloneOp(cand)); v != nil {
+		if v := exec(cloneOp(cand).WithMeta("after-faults", fmt.Sprint(1<<nc-1))); v != nil {
 			return v
 		}
 	}
